@@ -40,6 +40,7 @@ class Contract(object):
         self.variant_of = kw.pop('variant_of', None)
         self.merge_exits = kw.pop('merge_exits', True)  # merge exits through the same site into one obligation set
         self.feas_ms = kw.pop('feas_ms', None)          # feasibility-check budget per fork (unknown = feasible)
+        self.defines = list(kw.pop('defines', []))     # definitional links to ghost symbols: assumed by callers, not checkable
         self.consts = kw.pop('consts', {})              # parameter -> concrete Python value (specialised variant)
         self.variants = kw.pop('variants', {})          # (param, value) -> qual of the specialised contract
         if kw:
